@@ -364,7 +364,7 @@ def judge_c18(ctx, mode, extra, obs, acc):
     for fk, txt in sorted(obs.files.items()):
         probs, n = readback_problems(txt, ctx.readers, ctx.rmaps, ctx.qmaps)
         for sym, detail, sig in probs:
-            found.append((sym, 'mode=%s file=%s %s' % (mode, fk, detail), 'reader', dict(sig, file='%s.%s' % (mode, fk))))
+            found.append((sym, 'mode=%s file=%s %s' % (mode, fk, detail), 'reader', sig))
         if acc is not None:
             acc.classes['files'] += 1
             acc.classes['records'] += n
